@@ -10,11 +10,11 @@ from __future__ import annotations
 
 from fractions import Fraction
 
-from .core import AnchorError, Unsupported
-from .c12_str import Lit, Fmt, Strip, CallS, Round, Unk
+from .core import AnchorError
+from .c12_str import Lit, Fmt, Strip, CallS, Round
 from .c12_exec import walk_value
 from .c12_model import width_bounds
-from .c12_float import (BULK, SCI, FloatAnalysis, SciRun, SCI_INTERVALS, describe, inner_of, first_stage_precision, _abs_range, decades)
+from .c12_float import BULK, SCI, FloatAnalysis, SciRun, SCI_INTERVALS, describe, inner_of, first_stage_precision
 
 FLOATS = (("format_float8", 8), ("format_float16", 16))
 
@@ -241,18 +241,30 @@ RULES = [
     ("C12-R2b", r2b_paths, 30),
 ]
 LEVEL = "other"
-EXPLANATION = ("Static width/precision analysis of format_float8/16 on (interval, rendering) leaves: every decade in which fixed notation "
-               "is the more precise form is rendered fixed with sign+digits+point+precision-stripped zero = field width exactly, the carry "
-               "case fits; arms that print a rounded value are reached only by values whose rounding fits (decided per rounding regime); the "
-               "three scientific helpers fill exactly the width for both signs and 1-3 exponent digits and keep the two-stage rounding "
-               "margin; every return path is width-exact; card grid of writers and generic reader.")
+EXPLANATION = ("Static analysis on values. format_float8/16 are evaluated on abstract strings with the float confined to an interval that every "
+               "comparison splits; per leaf, decade and rounding case a column model (sign, digits, point, decimals, blanks) carries strip / "
+               "replace / justify / slice: every decade in which fixed notation is the more precise form is rendered fixed with all W columns "
+               "used, the carry case fits, arms that print a rounded value are reached only where the rounding fits, every return is W wide. "
+               "The scientific helpers fill exactly W for both signs, both exponent signs and 1-3 exponent digits with >= 2 digits of "
+               "two-stage margin. The card writers are evaluated on symbolic cards and parsed on the 8 + k*W / 72 column grid; _rdfixed is "
+               "evaluated on that text and _rdcomma on the comma forms and must return the fields one for one; nas_sscanf is evaluated on an "
+               "instance of every class of text the formatters emit.")
 MANIFEST = {
-    "text": "Partial claim decided statically for all finite doubles of each rung: every fixed-notation rung of format_float8/format_float16 is one "
-            "decade wide and renders exactly the field width with the maximal precision that width allows, including the rounding-carry case; "
-            "the negative integer-rounding arm is guarded against integers wider than its spec; the scientific helpers and format_double16 "
-            "fill exactly the width for every exponent length and sign and keep >= 2 digits of two-stage rounding margin; every return is width-formatted. "
+    "text": "Partial claim decided statically: (1) for every decade in which fixed notation carries more digits than the scientific form, "
+            "format_float8/format_float16 render fixed notation with sign+digits+point+decimals = the field width exactly (maximal precision), "
+            "including the value that rounds up to the next power of ten; arms that print a separately rounded value are guarded against a "
+            "wider integer; every return path is exactly W wide for every decade and rounding case. (2) _format_scientific8/16 and "
+            "format_double16 fill exactly W characters for both signs, both exponent signs and 1-3 exponent digits, keep >= 2 digits of "
+            "two-stage rounding margin, and render zero in W characters. (3) nas_sscanf returns the denoted number for an instance of every "
+            "class of text (1) and (2) emit, integers and blanks. (4) wtcard8 / wtcard16 / wtcard16d put every field of symbolic cards "
+            "(1..60 fields around the line breaks, integer / real / string / blank, whole blank lines) into its own W-wide slot of the "
+            "8 + k*W grid with continuation heads the reader accepts; _rdfixed returns those fields one for one from that text, _rdcomma from "
+            "the comma forms (',' '+,' ' ,' and named continuation fields, short lines). "
             "Not decided: the sub-0.001 fixed-vs-scientific choice (float(field1) == float(field2), runtime), last-digit accuracy of the "
-            "scientific fallback, nas_sscanf on arbitrary text, card reader round trip (see evidence notes).",
-    "note": "Trusted: CPython ast; Python format-spec semantics for 'f', 'e', 'd', 's' as modelled in verifier/c12_str.py and c12_model.py.",
-    "technique": "static format-spec width/precision abstract interpretation over interval-split paths + column model of the renderings",
+            "scientific fallback beyond the two-stage margin, nas_sscanf on arbitrary text, cards whose fields do not fit their column, "
+            "include files and comment handling of rdcards.",
+    "note": "Trusted: CPython ast; Python format-spec semantics for 'f', 'e', 'd', 's' and str.strip/replace/slicing as modelled in "
+            "verifier/c12_str.py, c12_model.py, c12_text.py; the standard library `re` applied to literal patterns and literal text.",
+    "technique": "abstract interpretation of the formatters on interval-split paths with a column model of the renderings; symbolic-card "
+                 "evaluation of writers and readers; concrete-text evaluation of the number reader",
 }
